@@ -685,6 +685,287 @@ func (v *V) ToGoH(r *vh.Rng) value.Value {
 	return v.ToGo()
 }
 
+// ---------------------------------------------------------------- in-place mutation of reachable children
+
+// PathNode is one step of the walk MutateInPlace took: the implementation object and its tree.
+type PathNode struct {
+	G value.Value
+	V *V
+}
+
+func child(g value.Value, v *V, i int) value.Value {
+	switch x := g.(type) {
+	case *value.ListValue:
+		return x.Get(i)
+	case *value.MapValue:
+		return x.Get(string(v.Ks[i]))
+	case *value.IntMapValue:
+		return x.Get(v.IKs[i])
+	}
+	return nil
+}
+
+// MutateInPlace walks from the root g (whose content is v) down a random path of children, obtained
+// through the public accessors (ListValue.Get, MapValue.Get, IntMapValue.Get — the very objects the
+// parent holds), and mutates the node it stops at *in place* through what that type exports:
+//
+//	ListValue    Add / AddString / AddLong / Set / Clear          MapValue   Put (new key, overwrite) / PutString / PutLong / NewList+Add / Clear
+//	IntMapValue  Put / PutString / NewList+Add / Clear            arrays, blob, IPv4   element writes through the exposed slice `Val`
+//	summaries    AddCount, Add(other summary), field writes       scalars    write of the exported field `Val`
+//
+// The same change is applied to the tree v, so v stays the content the implementation value now
+// *should* have.  It returns the path (root first) and a description.  rootOnly=false prefers
+// nodes below the root.
+func MutateInPlace(r *vh.Rng, g value.Value, v *V, gen *Gen) ([]PathNode, string) {
+	path := []PathNode{{g, v}}
+	for len(v.L) > 0 && (len(path) == 1 && r.Chance(85) || len(path) > 1 && r.Chance(55)) {
+		i := r.Intn(len(v.L))
+		c := child(g, v, i)
+		if c == nil {
+			break
+		}
+		g, v = c, v.L[i]
+		path = append(path, PathNode{g, v})
+	}
+	fresh := func() *V { return gen.Flat(FlatKinds[r.Intn(len(FlatKinds))]) }
+	what := v.K + ":"
+	switch x := g.(type) {
+	case *value.ListValue:
+		switch {
+		case len(v.L) > 0 && r.Chance(35):
+			i := r.Intn(len(v.L))
+			n := fresh()
+			x.Set(i, n.ToGo())
+			v.L[i] = n
+			what += "Set"
+		case len(v.L) > 0 && r.Chance(10):
+			x.Clear()
+			v.L = nil
+			what += "Clear"
+		case r.Chance(30):
+			x.AddString("added")
+			v.L = append(v.L, &V{K: "T", Bs: []byte("added")})
+			what += "AddString"
+		case r.Chance(30):
+			x.AddLong(-7)
+			v.L = append(v.L, &V{K: "D", I: -7})
+			what += "AddLong"
+		default:
+			n := fresh()
+			x.Add(n.ToGo())
+			v.L = append(v.L, n)
+			what += "Add"
+		}
+	case *value.MapValue:
+		switch {
+		case len(v.L) > 0 && r.Chance(35): // overwrite: place kept
+			i := r.Intn(len(v.L))
+			n := fresh()
+			x.Put(string(v.Ks[i]), n.ToGo())
+			v.L[i] = n
+			what += "Put(existing)"
+		case len(v.L) > 0 && r.Chance(10):
+			x.Clear()
+			v.L, v.Ks = nil, nil
+			what += "Clear"
+		default:
+			k := []byte("+" + strconv.Itoa(r.Intn(1000000)))
+			for _, e := range v.Ks {
+				if string(e) == string(k) {
+					k = append(k, '!')
+				}
+			}
+			switch r.Intn(4) {
+			case 0:
+				x.PutString(string(k), "s")
+				v.L = append(v.L, &V{K: "T", Bs: []byte("s")})
+				what += "PutString"
+			case 1:
+				x.PutLong(string(k), 42)
+				v.L = append(v.L, &V{K: "D", I: 42})
+				what += "PutLong"
+			case 2:
+				l := x.NewList(string(k))
+				l.AddLong(1)
+				v.L = append(v.L, &V{K: "l", L: []*V{{K: "D", I: 1}}})
+				what += "NewList+AddLong"
+			default:
+				n := fresh()
+				x.Put(string(k), n.ToGo())
+				v.L = append(v.L, n)
+				what += "Put(new)"
+			}
+			v.Ks = append(v.Ks, k)
+		}
+	case *value.IntMapValue:
+		switch {
+		case len(v.L) > 0 && r.Chance(35):
+			i := r.Intn(len(v.L))
+			n := fresh()
+			x.Put(v.IKs[i], n.ToGo())
+			v.L[i] = n
+			what += "Put(existing)"
+		case len(v.L) > 0 && r.Chance(10):
+			x.Clear()
+			v.L, v.IKs = nil, nil
+			what += "Clear"
+		default:
+			k := int32(2000000 + r.Intn(1000000))
+			for _, e := range v.IKs {
+				if e == k {
+					k += 1000003
+				}
+			}
+			switch r.Intn(3) {
+			case 0:
+				x.PutString(k, "s")
+				v.L = append(v.L, &V{K: "T", Bs: []byte("s")})
+				what += "PutString"
+			case 1:
+				l := x.NewList(k)
+				l.AddString("e")
+				v.L = append(v.L, &V{K: "l", L: []*V{{K: "T", Bs: []byte("e")}}})
+				what += "NewList+AddString"
+			default:
+				n := fresh()
+				x.Put(k, n.ToGo())
+				v.L = append(v.L, n)
+				what += "Put(new)"
+			}
+			v.IKs = append(v.IKs, k)
+		}
+	case *value.BoolValue:
+		x.Val = !x.Val
+		v.B = x.Val
+		what += "Val="
+	case *value.DecimalValue:
+		x.Val = GenI64(r)
+		v.I = x.Val
+		what += "Val="
+	case *value.IntValue:
+		x.Val = int32(GenI32(r))
+		v.I = int64(x.Val)
+		what += "Val="
+	case *value.LongValue:
+		x.Val = GenI64(r)
+		v.I = x.Val
+		what += "Val="
+	case *value.TextHashValue:
+		x.Val = int32(GenI32(r))
+		v.I = int64(x.Val)
+		what += "Val="
+	case *value.FloatValue:
+		v.U = GenF32(r)
+		x.Val = math.Float32frombits(uint32(v.U))
+		what += "Val="
+	case *value.DoubleValue:
+		v.U = GenF64(r)
+		x.Val = math.Float64frombits(v.U)
+		what += "Val="
+	case *value.TextValue:
+		x.Val = x.Val + "~"
+		v.Bs = append(append([]byte{}, v.Bs...), '~')
+		what += "Val="
+	case *value.BlobValue:
+		if len(x.Val) > 0 {
+			i := r.Intn(len(x.Val))
+			x.Val[i] ^= 0x5a
+			v.Bs = append([]byte{}, x.Val...)
+			what += "Val[i]="
+		} else {
+			x.Val = []byte{9}
+			v.Bs, v.Nil = []byte{9}, false
+			what += "Val="
+		}
+	case *value.IP4Value:
+		i := r.Intn(4)
+		x.Val[i] ^= 0x5a
+		v.Bs = append([]byte{}, x.Val...)
+		what += "Val[i]="
+	case *value.IntArray:
+		if len(x.Val) > 0 {
+			i := r.Intn(len(x.Val))
+			x.Val[i] = int32(GenI32(r))
+			v.Is[i] = int64(x.Val[i])
+			what += "Val[i]="
+		} else {
+			x.Val = []int32{5}
+			v.Is, v.Nil = []int64{5}, false
+			what += "Val="
+		}
+	case *value.LongArray:
+		if len(x.Val) > 0 {
+			i := r.Intn(len(x.Val))
+			x.Val[i] = GenI64(r)
+			v.Is[i] = x.Val[i]
+			what += "Val[i]="
+		} else {
+			x.Val = []int64{5}
+			v.Is, v.Nil = []int64{5}, false
+			what += "Val="
+		}
+	case *value.FloatArray:
+		if len(x.Val) > 0 {
+			i := r.Intn(len(x.Val))
+			v.Us[i] = GenF32(r)
+			x.Val[i] = math.Float32frombits(uint32(v.Us[i]))
+			what += "Val[i]="
+		} else {
+			x.Val = []float32{1}
+			v.Us, v.Nil = []uint64{0x3f800000}, false
+			what += "Val="
+		}
+	case *value.TextArray:
+		if len(x.Val) > 0 {
+			i := r.Intn(len(x.Val))
+			x.Val[i] = x.Val[i] + "~"
+			v.Ss[i] = append(append([]byte{}, v.Ss[i]...), '~')
+			what += "Val[i]="
+		} else {
+			x.Val = []string{"t"}
+			v.Ss, v.Nil = [][]byte{[]byte("t")}, false
+			what += "Val="
+		}
+	case *value.LongSummary:
+		switch {
+		case r.Chance(40) && x.Count < math.MaxInt32:
+			x.AddCount()
+			v.Q[1]++
+			what += "AddCount"
+		case r.Chance(50) && abs64(x.Sum) < 1<<40 && abs64(x.Min) < 1<<40 && abs64(x.Max) < 1<<40 && x.Count < 1<<20 && x.Count > -(1<<20):
+			o := value.NewLongSummary()
+			o.Sum, o.Count, o.Min, o.Max = r.Range(-1000, 1000), int32(r.Range(1, 5)), r.Range(-1000, 0), r.Range(0, 1000)
+			x.Add(o)
+			v.Q[0], v.Q[1], v.Q[2], v.Q[3] = x.Sum, int64(x.Count), x.Min, x.Max // read back: Add's arithmetic is not the subject here
+			what += "Add"
+		default:
+			x.Min = GenI64(r)
+			v.Q[2] = x.Min
+			what += "Min="
+		}
+	case *value.DoubleSummary:
+		if r.Chance(50) && x.Count < math.MaxInt32 {
+			x.AddCount()
+			v.Q[1]++
+			what += "AddCount"
+		} else {
+			v.QU[3] = GenF64(r)
+			x.Max = math.Float64frombits(v.QU[3])
+			what += "Max="
+		}
+	default:
+		what += "none"
+	}
+	return path, what
+}
+
+func abs64(x int64) int64 {
+	if x < 0 {
+		return -x
+	}
+	return x
+}
+
 // ---------------------------------------------------------------- float helpers
 
 func IsNaN32(b uint64) bool { return b&0x7fffffff > 0x7f800000 }
